@@ -5,7 +5,7 @@ connGroup.connect, environment half = a broker that may reject, fail, tamper or 
 C18 invariants on it exhaustively.  The same invariants are then evaluated by TLC (SaslTrace.tla, MSpec) on journals
 recorded from REAL dials against the fake cluster for every tuple of the scenario space, and every journal is
 validated as a behaviour of the automaton (TSpec)."""
-import json, os, random, re
+import concurrent.futures, json, os, random, re, shutil, threading
 from vlib import Inconclusive, read_ndjson, write_ndjson, split_traces
 
 ENGINE = "sasl"
@@ -15,6 +15,9 @@ ASSUMPTIONS = {"C18": [
     "after SASLprep), hand-written RFC 4616 check for PLAIN (empty password rejected, as Kafka does)",
     "the broker half behaves like Kafka's SaslServerAuthenticator: error 33 + mechanism list + close for an unknown mechanism, "
     "error 58 + close after a failed framed step, plain close after a failed raw step, close on any other request before the verdict",
+    "the result of an API call is attributed to the connection dialled last during the call (cfg.attr); connections used only "
+    "internally by the library (DialLeader's lookup connection, pooled Transport connections of concurrent requests) have no observable "
+    "dial result: for them 'dial failed' is judged as closed + never used + nothing written after the failure",
     "malformed / bad-proof server messages exist for SCRAM only (PLAIN has no server message); a malformed handshake answer is a "
     "response body cut inside the error code",
 ]}
@@ -28,6 +31,7 @@ GUARDS = [("useBeforeAuth", "C18_NothingBeforeAuth"), ("skipAuthV0", "C18_Succes
 MECHS = ["PLAIN", "SCRAM-SHA-256", "SCRAM-SHA-512"]
 CREDS = ["right", "wrongPassword", "unknownUser"]
 ENTRIES = ["dial", "leader", "transport"]
+CHUNK = 25000      # journal lines per TLC run
 
 
 def rounds(mech):
@@ -102,17 +106,25 @@ def scenarios(tier, seed):
     out = []
     tl = tuples()
     if tier == "quick":
-        # every tuple once; the connection that gets the fault and the credential class rotate with the seed
+        # every tuple once; the connection that gets the fault and the credential class rotate with the seed.
+        # Tuples without an injected fault (where the outcome depends on the credentials only) run with every class.
         for i, t in enumerate(tl):
             fc = fconns(t)
-            out.append(scenario(t, fc[(i + seed) % len(fc)], CLASS_ORDER[(i * 7 + seed) % len(CLASS_ORDER)], seed, 0))
+            first = CLASS_ORDER[(i * 7 + seed) % len(CLASS_ORDER)]
+            out.append(scenario(t, fc[(i + seed) % len(fc)], first, seed, 0))
+            if t[3] == "none":
+                for cls in CLASS_ORDER:
+                    if cls != first and not (cls == "emptypw" and t[2] != "wrongPassword"):
+                        out.append(scenario(t, 0, cls, seed, 0))
+        ids = set()
+        out = [s for s in out if not (s["id"] in ids or ids.add(s["id"]))]
         return out
     for i, t in enumerate(tl):
         for fc in fconns(t):
             for cls in CLASS_ORDER:
                 if cls == "emptypw" and t[2] != "wrongPassword":
                     continue
-                for k in range(2):
+                for k in range(6):
                     out.append(scenario(t, fc, cls, seed, k))
     # concurrent requests through one Transport pool: every request may dial and authenticate its own connection
     for mech in MECHS:
@@ -186,15 +198,46 @@ def chunks(traces, nlines):
         yield cur
 
 
-def monitor(ctx, byid, traces, maxviol=12):
+class Pool:
+    """Runs chunk jobs on a few threads; every thread owns a private copy of the spec directory (alias engine name)."""
+
+    def __init__(self, ctx, n):
+        self.ctx, self.n, self.lock = ctx, n, threading.Lock()
+        base = ctx.specdir(ENGINE)
+        self.free = []
+        for i in range(n):
+            alias = "%s-w%d" % (ENGINE, i)
+            d = os.path.join(ctx.work, "spec-" + alias)
+            if not os.path.isdir(d):
+                shutil.copytree(base, d)
+            self.free.append(alias)
+
+    def map(self, fn, jobs):
+        def wrapped(job):
+            with self.lock:
+                alias = self.free.pop()
+            try:
+                return fn(alias, job)
+            finally:
+                with self.lock:
+                    self.free.append(alias)
+        with concurrent.futures.ThreadPoolExecutor(max_workers=self.n) as ex:
+            return list(ex.map(wrapped, jobs))
+
+
+def monitor(ctx, pool, byid, traces, maxviol=8):
     """TLC evaluates the C18 invariants in every state of every journal; a violated invariant names the journal (tid)."""
-    checked, nviol, states = 0, 0, 0
-    for chunk in chunks(traces, 60000):
-        remaining = list(chunk)
+    state = {"nviol": 0}
+
+    def job(alias, chunk):
+        remaining, checked, states = list(chunk), 0, 0
         while remaining:
-            tf = os.path.join(ctx.work, "sasl-mon-in.ndjson")
+            with pool.lock:
+                if state["nviol"] >= maxviol:
+                    return checked, states, len(remaining)
+            tf = os.path.join(ctx.work, "mon-in-%s.ndjson" % alias)
             write_ndjson(tf, [e for t in remaining for e in t])
-            r = ctx.tlc(ENGINE, "SaslTrace", "SaslMon.cfg", workers=1, timeout=1800, env={"TRACE": tf})
+            r = ctx.tlc(alias, "SaslTrace", "SaslMon.cfg", workers=1, timeout=1800, env={"TRACE": tf})
             if r["violated"]:
                 tid = tid_of(r["out"])
                 idx = next((i for i, t in enumerate(remaining) if t[0].get("id") == tid), None)
@@ -203,34 +246,42 @@ def monitor(ctx, byid, traces, maxviol=12):
                 bad = remaining[idx]
                 sc = byid.get(bad[0]["scenario"], {})
                 checked += idx + 1
-                rep = ctx.save_replay("%s-%s" % (re.sub(r"[^A-Za-z0-9_.#-]", "_", tid), r["violated"]), [
-                    ("scenario.json", json.dumps(sc, ensure_ascii=False)),
-                    ("journal.ndjson", "\n".join(json.dumps(e) for e in bad) + "\n"),
-                    ("tlc.txt", r["out"][-20000:])])
-                ctx.violation("%s violated on the journal of a real dial: connection %s of tuple %s" % (r["violated"], tid, "/".join(map(str, tuple_of(sc))) if sc else "?"),
-                              rep, key="%s tuple=%s" % (r["violated"], tid))
-                nviol += 1
+                with pool.lock:
+                    rep = ctx.save_replay("%s-%s" % (re.sub(r"[^A-Za-z0-9_.#-]", "_", tid), r["violated"]), [
+                        ("scenario.json", json.dumps(sc, ensure_ascii=False)),
+                        ("journal.ndjson", "\n".join(json.dumps(e) for e in bad) + "\n"),
+                        ("tlc.txt", r["out"][-20000:])])
+                    ctx.violation("%s violated on the journal of a real dial: connection %s of tuple %s" % (
+                        r["violated"], tid, "/".join(map(str, tuple_of(sc))) if sc else "?"), rep, key="%s tuple=%s" % (r["violated"], tid))
+                    state["nviol"] += 1
                 remaining = remaining[idx + 1:]
-                if nviol >= maxviol:
-                    ctx.notes.append("monitor stopped after %d violations; the remaining journals were not monitored" % nviol)
-                    return checked, states
                 continue
             if r["postcondition_failed"] or r["error"] or r["timeout"]:
                 raise Inconclusive("monitor run failed: " + (r["error"] or r["out"][-1500:]))
             states += r["distinct"]
             checked += len(remaining)
             remaining = []
-    return checked, states
+        return checked, states, 0
+
+    res = pool.map(job, list(chunks(traces, CHUNK)))
+    skipped = sum(x[2] for x in res)
+    if skipped:
+        ctx.notes.append("monitor stopped after %d violations; %d journals were not monitored" % (state["nviol"], skipped))
+    return sum(x[0] for x in res), sum(x[1] for x in res)
 
 
-def conformance(ctx, traces, maxdiv=10):
-    divs, accepted = [], 0
-    for chunk in chunks(traces, 60000):
-        remaining = list(chunk)
-        while remaining and len(divs) < maxdiv:
-            tf = os.path.join(ctx.work, "sasl-conf-in.ndjson")
+def conformance(ctx, pool, traces, maxdiv=10):
+    state = {"ndiv": 0}
+
+    def job(alias, chunk):
+        remaining, accepted, divs = list(chunk), 0, []
+        while remaining:
+            with pool.lock:
+                if state["ndiv"] >= maxdiv:
+                    return accepted, divs
+            tf = os.path.join(ctx.work, "conf-in-%s.ndjson" % alias)
             write_ndjson(tf, [e for t in remaining for e in t])
-            r = ctx.tlc(ENGINE, "SaslTrace", "SaslTrace.cfg", workers=1, timeout=1800, env={"TRACE": tf})
+            r = ctx.tlc(alias, "SaslTrace", "SaslTrace.cfg", workers=1, timeout=1800, env={"TRACE": tf})
             if r["postcondition_failed"] or r["violated"]:
                 m = re.search(r'"DIVERGED_AT_LINE",\s*(\d+)', r["out"])
                 if not m:
@@ -239,6 +290,8 @@ def conformance(ctx, traces, maxdiv=10):
                 for k, t in enumerate(remaining):
                     if line <= n + len(t):
                         divs.append({"trace": t[0].get("id"), "line": line - n, "event": t[line - n - 1]})
+                        with pool.lock:
+                            state["ndiv"] += 1
                         accepted += k
                         remaining = remaining[k + 1:]
                         break
@@ -250,9 +303,10 @@ def conformance(ctx, traces, maxdiv=10):
                 raise Inconclusive("conformance run failed: " + (r["error"] or r["out"][-1500:]))
             accepted += len(remaining)
             remaining = []
-        if len(divs) >= maxdiv:
-            break
-    return accepted, divs
+        return accepted, divs
+
+    res = pool.map(job, list(chunks(traces, CHUNK)))
+    return sum(x[0] for x in res), [d for x in res for d in x[1]]
 
 
 def run(ctx):
@@ -265,9 +319,10 @@ def run(ctx):
     byid = {s["id"]: s for s in scs}
     traces = run_driver(ctx, scs, "main")
     ctx.log("driver: %d scenarios, %d connection journals, %d lines" % (len(scs), len(traces), sum(len(t) for t in traces)))
-    checked, mstates = monitor(ctx, byid, traces)
+    pool = Pool(ctx, 1 if len(traces) < 3000 else 6)
+    checked, mstates = monitor(ctx, pool, byid, traces)
     ctx.log("monitor: %d journals" % checked)
-    accepted, divs = conformance(ctx, traces)
+    accepted, divs = conformance(ctx, pool, traces, maxdiv=3 if ctx.violations else 10)
     ctx.log("conformance: %d journals accepted, %d divergences" % (accepted, len(divs)))
     tl = set(tuples())
     covered = set(tuple_of(s) for s in scs)
@@ -298,3 +353,24 @@ def run(ctx):
         ctx.notes.append("DIVERGENCE: %d journal(s) of real dials are not behaviours of Sasl.tla" % len(divs))
         print("DIVERGENCE property=%s traces=%d first=%s" % (ctx.prop, len(divs), json.dumps(divs[0])[:400]), flush=True)
     return cov
+
+
+def replay(ctx, path):
+    """bin/check C18 quick --replay <dir>: dials the scenario of <dir>/scenario.json again and lets TLC judge the journals."""
+    sp = os.path.join(path, "scenario.json")
+    if not os.path.exists(sp):
+        raise Inconclusive("no scenario.json in " + path)
+    ctx.vh_keep = ["sasl.go"]
+    sc = json.load(open(sp))
+    traces = run_driver(ctx, [sc], "replay")
+    pool = Pool(ctx, 1)
+    checked, _ = monitor(ctx, pool, {sc["id"]: sc}, traces)
+    accepted, divs = conformance(ctx, pool, traces)
+    for t in traces:
+        print("journal %s: %s" % (t[0]["id"], " | ".join("%s %s" % (e["ev"], e.get("api") or e.get("what") or e.get("res") or e.get("closed", ""))
+                                                          for e in t[1:] if e["ev"] not in ("write", "open", "use"))), flush=True)
+    if divs:
+        print("DIVERGENCE property=%s traces=%d first=%s" % (ctx.prop, len(divs), json.dumps(divs[0])[:400]), flush=True)
+    if not ctx.violations:
+        print("replay: %d journal(s) monitored, %d accepted by Sasl.tla, no C18 invariant violated" % (checked, accepted), flush=True)
+    return 1 if ctx.violations else 0
